@@ -111,6 +111,32 @@ def check_blocked_quit(run, case, tier='quick'):
                 run.violation(f'status / help requests typed on a terminal while the generator was blocked changed stdout ({out.count(10)} lines of {ref.count(10)}; lines that are no guesses: {foreign})',
                               case, observed=foreign); return
             run.ev('typed_requests_while_blocked_left_the_stream_intact')
+        # a quit typed on the terminal and followed by more typing (ENTER to look at the status once more, h): the quit stands
+        late = []
+        for attempt, settle in enumerate([2.0, 6.0]):
+            s3 = f'{sn}ptyq{attempt}'
+            out, err, rc, to, info = cli.run_cli_blocked('pcfg_guesser.py', ['-r', name, '-s', s3], [b'q\n', b'\n', b'h\n'], settle=settle, use_pty=True)
+            run.ev('cli_runs'); run.ev('blocked_cli_runs'); run.add_to_set('stdin_conditions', 'pty typed q, ENTER, h while blocked')
+            if to or not info['blocked']:
+                run.inconc('blocked-quit (typed): watchdog / not blocked'); break
+            if not ref.startswith(out) or (out and not out.endswith(b'\n')):
+                run.violation('q followed by further requests typed on a terminal while the generator was blocked: stdout is not a line-aligned prefix of the uninterrupted stream', case,
+                              observed=out[-120:].decode('utf-8', 'replace')); return
+            if len(out) > info['fill'] + 2 * 8192 + 2 * maxpt + 4096:
+                late.append(f'{len(out)} bytes written, the generator was blocked at about {info["fill"]} (whole stream {len(ref)}), settle {settle}s')
+                continue
+            out2, err2, rc2, to2 = cli.run_cli('pcfg_guesser.py', ['-r', name, '-s', s3, '--load'], stdin_mode='open')
+            run.ev('cli_runs'); run.ev('cli_resumes')
+            if not to2:
+                lost = Counter(ref.split(b'\n')) - (Counter(out.split(b'\n')) + Counter(out2.split(b'\n')))
+                if lost:
+                    run.violation(f'q followed by further requests typed on a terminal + --load lost {sum(lost.values())} guesses', case, observed=[x.decode('utf-8', 'replace') for x in list(lost)[:5]]); return
+            run.ev('typed_quit_followed_by_requests_honoured')
+            late = []
+            break
+        if len(late) == 2:
+            run.violation('an explicit quit typed on a terminal and followed by further requests (ENTER, h) while the generator was blocked on its output was not honoured: ' + late[-1], case,
+                          observed=late); return
         # end of input on the terminal (CTRL-D at the start of a line) is a standard-input condition, not a request to quit
         out, err, rc, to, info = cli.run_cli_blocked('pcfg_guesser.py', ['-r', name, '-s', sn + 'eof'], [b'\x04'], settle=0.5, use_pty=True)
         run.ev('cli_runs'); run.ev('blocked_cli_runs'); run.add_to_set('stdin_conditions', 'pty CTRL-D while blocked')
